@@ -597,7 +597,7 @@ fn strategy_for(dirty: bool) -> BoxedStrategy<Case> {
     let iri = pick(subj_iris()).prop_map(MT::Iri).boxed();
     let lit = prop_oneof![
         4 => lex(dirty).prop_map(MT::string),
-        2 => (lex(dirty), pick(dts())).prop_map(|(l, d)| MT::Lit(l, d)),
+        2 => (lex(dirty), prop_oneof![5 => pick(dts()), 1 => pick(crate::gen::near_miss_datatypes())]).prop_map(|(l, d)| MT::Lit(l, d)),
         2 => (lex(dirty), pick(tags())).prop_map(|(l, t)| MT::Lang(l, t)),
     ]
     .boxed();
